@@ -24,6 +24,7 @@ OWN_DEFECT = [
     doc(SYS % ('<CATEGORY>' + 'C' * 300 + '</CATEGORY>')).replace('<SHORT-NAME>Sys', '<SHORT-NAME>' + 'S' * 200),  # too long
     doc('<SYSTEM><SHORT-NAME>1abc</SHORT-NAME></SYSTEM>'),      # pattern violation
     doc(SYS % '<DESC><L-2 L="EN">a &foo; b</L-2></DESC>'),      # malformed entity
+] + [doc(SYS % ('<DESC><L-2 L="EN">a ' + e + ' b</L-2></DESC>')) for e in ['&#;', '&#x;', '&#1114112;', '&#xD800;', '&', '&amp', '&#65', '&#x110000;', '&#-1;', '&;']] + [
     doc(SYS % '<DESC><L-2 L="XX">a</L-2></DESC>'),              # unknown enum value
     doc(SYS % '') + '<MORE/>',                                  # data after the root element
     doc(SYS % '').replace('AUTOSAR_00050.xsd', 'AUTOSAR_4-3-1.xsd'),   # wrong version label
